@@ -758,9 +758,17 @@ def analysis_functions(prj: "Project", roots) -> list:
             for t in tg:
                 if t.qual not in seen:
                     todo.append(prj.func(t.qual))
-        # implicit calls (special methods of constructed objects, properties, functions passed as values)
+        # implicit calls (special methods of constructed objects, properties, functions passed as values); a helper whose call
+        # was inlined into this view is not a function of its own here (its body is part of the view, under the caller's guards)
+        if f.qual in prj.funcs:
+            raw = prj.funcs[f.qual]
+            direct_raw = {t.qual for c in raw.calls() for t in prj.resolve_call(raw, c)[0]}
+            direct_view = {t.qual for c in f.calls() for t in prj.resolve_call(f, c)[0]}
+            inlined = direct_raw - direct_view
+        else:
+            inlined = set()
         for q in prj.callgraph.edges.get(f.qual, ()):
-            if q not in seen and q in prj.funcs:
+            if q not in seen and q in prj.funcs and q not in inlined:
                 todo.append(prj.func(q))
     return sorted(out, key=lambda f: f.qual)
 
